@@ -22,7 +22,7 @@ VERIF = os.path.dirname(HERE)
 
 
 def sh(cmd, **kw):
-    p = subprocess.run(cmd, shell=isinstance(cmd, str), stdout=subprocess.PIPE, stderr=subprocess.STDOUT, text=True, **kw)
+    p = subprocess.run(cmd, shell=isinstance(cmd, str), stdout=subprocess.PIPE, stderr=subprocess.STDOUT, text=True, errors="replace", **kw)
     return p.returncode, p.stdout
 
 
